@@ -10,6 +10,25 @@ TECH = "explicit TLA+ spec checked by TLC + conformance (spec behaviours replaye
 
 # property id -> dict(claimed, text, note, design_ref, technique) or dict(claimed=False, reason)
 TABLE = {
+    "C01": dict(
+        claimed=True,
+        text="TLC checks spec/Future/Future.tla (atomic-operation grain: claim exchange, resolving exchange, chain walk, "
+             "subscribe CAS iterations, fence, flag store/notify/wait) exhaustively for every mix of 2-3 competing resolvers "
+             "(value, exception, drop, move+destroy, final destructor, coroutine completion) with 0-2 waiters: OneWinner, "
+             "PayloadIsWinners, LosersLeaveNoTrace, ResultStable. Every edge of each mix's state graph is replayed as a thread "
+             "schedule on the real future<int>/promise<int> (real threads, controlled scheduler at instrumented atomics) with "
+             "the real objects' projection and each thread's pending operation compared after every step.",
+        note="bounds: <=3 resolvers + <=2 waiters (<=4 threads), value type int; weak CAS assumed not to fail spuriously; "
+             "quick tier replays a capped edge cover per mix; TCB: TLC, vsched, the projection code",
+        design_ref="6/C01, 3.1, 4.2"),
+    "C02": dict(
+        claimed=True,
+        text="Same specification and replay as C01 with 1-3 waiters of every kind (coroutine co_await, co_await has_value(), "
+             "blocking sync()/wait(), callback awaiter) against a resolver of every kind incl. completion of an async coroutine: "
+             "NoEarlyWake, AtMostOnce, SeesCompleteResult, ChainWellFormed, AllReleasedAtEnd, NoStuckState and liveness NoHang under "
+             "weak fairness; all interleavings at atomic-operation grain, each replayed on real threads.",
+        note="bounds: <=3 waiters + <=2 resolvers; notify_all after the flag store is assumed to touch the waiter's node by address only",
+        design_ref="6/C02, 3.1, 4.2"),
     "C09": dict(
         claimed=True,
         text="TLC checks spec/Queue/Queue.tla exhaustively (all histories of one client to the stated bound, all "
